@@ -132,8 +132,8 @@ Proof. exact arg_stable. Qed.
 Print Assumptions C14_arg_stable.
 
 (* superseded index manifests: when nobody is updating, every index manifest in
-   the registry is the current one or is [junk]; without SkipReferrersGC and without
-   a failed deletion junk is what was there before *)
+   the registry is the current one or is [junk] (dangling before the run, or left by a
+   failed / skipped deletion); C14_gc_clean: the superseded INITIAL index is deleted too *)
 Theorem C14_gc : forall sg r0 st0 tr s,
   run sg (init r0 st0) tr = Some s -> (forall t, is_main (pcs s t) = false) ->
   forall x, In x (store s) -> reg s = Some x \/ In x (junk s).
@@ -144,8 +144,15 @@ Theorem C14_gc_clean : forall r0 st0 tr s,
   run false (init r0 st0) tr = Some s ->
   forallb (fun e => negb (del_failed e)) tr = true ->
   (forall t, is_main (pcs s t) = false) ->
-  forall x, In x (store s) -> reg s = Some x \/ In x st0.
+  forall x, In x (store s) -> reg s = Some x \/ (In x st0 /\ r0 <> Some x).
 Proof. exact gc_clean. Qed.
+Print Assumptions C14_gc_clean.
+
+(* ... and with failed deletions: at most one more dangling index per failed deletion *)
+Theorem C14_gc_count : forall tr s s',
+  run false s tr = Some s' ->
+  length (junk s') = (length (junk s) + length (filter del_failed tr))%nat.
+Proof. exact junk_count. Qed.
 Print Assumptions C14_gc_clean.
 
 (* SetReferrersCapability: the state leaves Unknown with the first call and never
